@@ -477,3 +477,14 @@ Proof. repeat split. intros []; reflexivity. Qed.
 (** * Load paths *)
 Lemma protection_independent_of_load_path enc : readInitPrepares enc true = readInitPrepares enc false /\ readInitPrepares true true = true.
 Proof. split; reflexivity. Qed.
+
+(** * The iv that encrypts is the iv that is signalled, or the segment is refused *)
+Lemma served_iv_is_signalled p iv :
+  fragmentIV p = Ok iv -> lenZ iv = 16 /\ (p_scheme p = 1 -> signalledIV p = iv).
+Proof.
+  unfold fragmentIV, signalledIV. destruct (lenZ (padIV (p_iv p)) =? 16) eqn:E; [|discriminate].
+  intros H. injection H as <-. split; [lia|]. intros ->. reflexivity.
+Qed.
+
+Lemma missing_iv_refused p : p_iv p = [] -> exists e, fragmentIV p = Err e.
+Proof. intros H. unfold fragmentIV, padIV. rewrite H. cbn. eexists. reflexivity. Qed.
